@@ -235,6 +235,11 @@ def resume_from_gzindex(ck, P):
                     return True
                 if s.kind == "truth" and s.truth is True and any("is_empty" in k for k in s.calls):
                     return True
+                # the same test inside a helper that reports through ControlFlow: its Continue result means "pending is empty"
+                if a2[0] == "is" and a2[3] and set(a2[2]) == {"Continue"}:
+                    e_ = mir.strip_casts(a2[1])
+                    if e_[0] == "call" and isinstance(e_[1], str) and _continue_means_empty(P, e_[1]):
+                        return True
             return False
         # find the Hcrc arm entry: the block of the switch edge status == Hcrc
         starts = []
@@ -250,6 +255,31 @@ def resume_from_gzindex(ck, P):
         leak = flow.reaches_avoiding(fn, starts, [c.bb], cut_edges=room_edge) if starts else True
         ck.decide(not leak, R, "deflate:Hcrc-atomic", "header CRC bytes written only after room for both exists",
                   "the two header-CRC bytes can be written without room for both: a split write recomputes them from a changed running CRC", where(fn, c.line))
+
+
+def _continue_means_empty(P, path):
+    """every return of `path` that builds ControlFlow::Continue lies behind the true edge of an `is_empty()` test of the pending
+    buffer (the helper spelling of `flush_pending(); if !pending.is_empty() { .. return }`)"""
+    h = P.fns.get(path)
+    if h is None or not h.live_calls(r"deflate::flush_pending$"):
+        return False
+    conts = []
+    for bi, si, lhs, rv, st in h.assignments():
+        if lhs.get("l") == 0 and not lhs.get("p"):
+            e = h.rvalue_expr(rv)
+            if e[0] == "agg" and "Continue" in str(e[2] if len(e) > 2 else e):
+                conts.append(bi)
+    if not conts:
+        return False
+    for b in conts:
+        ok = False
+        for a in h.dominating_atoms(b):
+            s = sig.sig(a, h)
+            if s.kind == "truth" and s.truth is True and any("is_empty" in k for k in s.calls):
+                ok = True
+        if not ok:
+            return False
+    return True
 
 
 def header_crc_once(ck, P, R="PAIR/header-crc-once"):
